@@ -185,8 +185,11 @@ def run_history(ctx, hid, rng, nruns, junk_prob):
         now += rng.choice([1, 1, 3600, 3600, DAY, DAY, DAY, 9 * DAY, 0])
         maxg, maxp = rng.randint(1, 4), rng.randint(1, 4)
         junk = []
-        while rng.random() < junk_prob:
-            kind = rng.choice(JUNK)
+        # every fifth history seeds only what listing ignores or accepts silently (empty groups above all), so that the
+        # runs stay clean and retention has to deal with the empty groups
+        benign = hid % 5 == 2
+        while rng.random() < (0.5 if benign else junk_prob):
+            kind = rng.choice(['empty-group', 'empty-group', 'hidden-root', 'hidden-in-group', 'temp-backup-empty'] if benign else JUNK)
             seed_junk(rng, root, kind, now)
             junk.append(kind)
         store.write_config(cfg, 'b', root, [{'path': src}], maxg, maxp)
